@@ -139,6 +139,27 @@ static void value_case(T v, bool all_bases)
         S got(ss->raw_buffer(), ss->size()), want = ref_text(v, 10, false);
         if (got != want) viol(tn, "string_stream-digits", sfmt("value=%s got=%s", want.c_str(), got.c_str()));
     }
+    // ... and into a stream that is already nearly full: the digits (and the sign) end just below, at and just beyond the
+    // in-object capacity (256) and the first heap capacity (512), and more text follows (a regrow must keep every digit)
+    {
+        const S want = ref_text(v, 10, false);
+        for (size_t cap : {size_t(256), size_t(512)})
+            for (int d = -2; d <= 2; ++d) {
+                const size_t fill = cap - want.size() + static_cast<size_t>(d + 2) - 2;
+                vrt::Box<ST::string_stream> ss;
+                const S prefix(fill, 'p');
+                ss->append(prefix.data(), prefix.size());
+                if constexpr (sizeof(T) < sizeof(int)) {
+                    if constexpr (std::is_signed<T>::value) *ss << static_cast<int>(v); else *ss << static_cast<unsigned int>(v);
+                } else *ss << v;
+                *ss << "tail";
+                vrt::evals();
+                S got(ss->raw_buffer(), ss->size());
+                if (got != prefix + want + "tail")
+                    viol(tn, "string_stream-digits:nearly-full-stream", sfmt("value=%s after %zu bytes: got ...%s", want.c_str(), fill, got.substr(got.size() > 40 ? got.size() - 40 : 0).c_str()));
+                vrt::count("stream.nearly_full_inserts");
+            }
+    }
     vrt::count(std::string("values.") + tn);
 }
 
